@@ -127,27 +127,31 @@ def collect(ctx):
         raise Machinery("DavJudge accepted %d of %d corrupted client steps, e.g. %s" % (len(want - got), len(want), json.dumps(ex)[:600]))
     # confirmation by re-execution + replay records
     if rej05:
-        again = {}
+        again = {}      # (hp, conc) -> set of (cid, signature) rejected on re-execution
         for f, ln, s in rej05:
             sig = s[4:]
             g = sigs.setdefault(sig, {"count": 0, "record": None})
             g["count"] += 1
             if g["record"] is None:
                 hp, conc = meta[f]
+                l1 = open(f).read().splitlines()
+                obs = json.loads(l1[ln - 1])
                 if (hp, conc) not in again:
                     d2 = os.path.dirname(f) + "-again"
-                    _record(ctx, binp, hp, conc, d2, ctx.seed)
-                    again[(hp, conc)] = d2
-                l1 = open(f).read().splitlines()
-                l2 = open(os.path.join(again[(hp, conc)], os.path.basename(f))).read().splitlines()
-                if ln > len(l2) or l1[ln - 1] != l2[ln - 1]:
-                    raise Machinery("re-execution observed something different for %s" % sig)
-                # the history the line belongs to
+                    files2, _ = _record(ctx, binp, hp, conc, d2, ctx.seed)
+                    rej2, _ = ctx.judge("DavJudge", files2)
+                    seen = set()
+                    for f2, ln2, s2 in rej2:
+                        if s2.startswith("C05 "):
+                            seen.add((json.loads(vlib._line(f2, ln2))["cid"], s2))
+                    again[(hp, conc)] = seen
+                # entity tags depend on the file times of the run, so the comparison is by step and signature, not by bytes
+                if (obs["cid"], s) not in again[(hp, conc)]:
+                    raise Machinery("re-execution did not reproduce the reject %s at %s" % (sig, obs["cid"]))
                 start = max(i for i in range(ln) if json.loads(l1[i])["k"] == "tree")
-                cid = json.loads(l1[ln - 1])["cid"]
-                hi = int(cid[1:].split("s")[0])
+                hi = int(obs["cid"][1:].split("s")[0])
                 hist = vlib.read_ndjson(hp)[hi]
-                g["record"] = {"case": {"kind": "clihist", "history": hist, "hi": hi, "conc": conc, "seed": ctx.seed, "step": ln - start - 1}, "observed": json.loads(l1[ln - 1])}
+                g["record"] = {"case": {"kind": "clihist", "history": hist, "hi": hi, "conc": conc, "seed": ctx.seed, "step": ln - start - 1}, "observed": obs}
     return sigs, universes, total
 
 
